@@ -12,13 +12,11 @@ open Optyx.Generated.PinsC06
 theorem pin_scipy_solver_solve_scipy_anchor : pin_scipy_solver_solve_scipy = "e7c69a3a73fa09d9" := rfl
 /-- `solve_lp` (solvers/lp_solver.py) -/
 theorem pin_lp_solver_solve_lp_anchor : pin_lp_solver_solve_lp = "244fed8ae6b2b560" := rfl
-/-- `Constraint.get_variables` (constraints.py) -/
-theorem pin_constraints_Constraint_get_variables_anchor : pin_constraints_Constraint_get_variables = "1984ddae9519490c" := rfl
 /-- `_make_constraint` (constraints.py) -/
 theorem pin_constraints_make_constraint_anchor : pin_constraints_make_constraint = "f94a0d73e3549836" := rfl
 
 /-- every function the model of C06 transcribes (and no translator covers) is the one it was read from -/
-theorem anchors : pin_scipy_solver_solve_scipy = "e7c69a3a73fa09d9" ∧ pin_lp_solver_solve_lp = "244fed8ae6b2b560" ∧ pin_constraints_Constraint_get_variables = "1984ddae9519490c" ∧ pin_constraints_make_constraint = "f94a0d73e3549836" :=
-  ⟨pin_scipy_solver_solve_scipy_anchor, pin_lp_solver_solve_lp_anchor, pin_constraints_Constraint_get_variables_anchor, pin_constraints_make_constraint_anchor⟩
+theorem anchors : pin_scipy_solver_solve_scipy = "e7c69a3a73fa09d9" ∧ pin_lp_solver_solve_lp = "244fed8ae6b2b560" ∧ pin_constraints_make_constraint = "f94a0d73e3549836" :=
+  ⟨pin_scipy_solver_solve_scipy_anchor, pin_lp_solver_solve_lp_anchor, pin_constraints_make_constraint_anchor⟩
 
 end Optyx.Props.PinsC06
